@@ -15,7 +15,7 @@ def run_check(tier, seed):
         'harness/src/bin/transport.rs (bitmap reset after the chain is built; dirty pages read back with dirty_at for every page of the data regions; byte diff of all guest memory against the initial pattern) and props/transport_lib.py',
     ]
     ev.assumptions = ['dirty tracking page size 4096 and page-aligned guest regions (dirty page = guest address / 4096)',
-                      'transport level: the statement is about every sequence of Reader/VirtioFsWriter calls; that request handlers write replies only through these calls is the subject of the server properties (C03), not re-proved here']
+                      'whole requests: Proofs/TransportServer.v bridges to the server model (Model/Server.v decide/perform, owned by the server properties C02/C03): for every reply action the writer operations perform issues are run on the segment-level writer; that the real handlers issue these operations is the server model\'s own correspondence (C03 harness) plus the 200 real requests run here each time']
     findings = []; broken = []
     rng = random.Random(seed * 7919 + 17)
     audit = std_audit(ev, PROP, broken)
